@@ -102,8 +102,12 @@ class CallMixin:
                         return self.call_repo(f.info, [obj] + list(args), kwargs, s, k, self_val=obj)
                     sub = f.extra[i]
                     narrowed = Val(("ref", sub.name) + tuple(obj.ty[2:]), obj.t)
-                    return self.split(s, subclass(cls_of(obj.t), cls_const(sub.name)),
-                                      lambda s2: self.call_repo(sub.methods[f.name], [narrowed] + list(args), kwargs, s2, k, self_val=narrowed),
+                    def as_sub(s2, sub=sub, narrowed=narrowed):
+                        # the receiver is now known to be an instance of `sub`: its class invariants (in scope) hold for it
+                        # at the last consistent point like those of any other object that is looked at
+                        self.touch(s2, narrowed, guard=True)
+                        return self.call_repo(sub.methods[f.name], [narrowed] + list(args), kwargs, s2, k, self_val=narrowed)
+                    return self.split(s, subclass(cls_of(obj.t), cls_const(sub.name)), as_sub,
                                       lambda s2: dispatch(i + 1, s2), label="dyn:%s" % sub.name)
                 return dispatch(0, st)
             if f.kind == "builtin":
@@ -777,6 +781,11 @@ class CallMixin:
         v = self.num(args[0])
         return k(Val(v.ty, z3.If(v.t >= 0, v.t, -v.t)), st)
 
+    def bi_whole(self, args, kwargs, st, k):
+        """spec-only: the number is integer-valued"""
+        v = self.num(args[0])
+        return k(Val(BOOL, z3.IsInt(v.t) if v.t.sort() == z3.RealSort() else z3.BoolVal(True)), st)
+
     def bi_takewhile(self, args, kwargs, st, k):
         return k(TakeWhile(args[0], args[1]), st)
 
@@ -889,6 +898,53 @@ class CallMixin:
                 res.extend(k(v, s2))
             else:
                 s2.frame.locals.pop(name, None)
+                res.append((o, s2))
+        return res
+
+    def takewhile_list(self, tw, st, k):
+        """list(takewhile(pred, L))  ==  _res = []
+                                          for _tw in L:
+                                              if not pred(_tw): break
+                                              _res.append(_tw)
+        run as that loop (label "takewhile#<line>", invariants from the contract); pred may have effects (a method under contract).
+        L is read once at loop entry: the iteration is over that snapshot (the loop body must not change L's length; the
+        callers' contracts state `L == old(L)` as a loop invariant)."""
+        names = ("_res", "_twf", "_twl", "_tw")
+        if any(n in st.frame.locals for n in names):
+            raise Unsupported("nested takewhile")
+        if st.frame.spec or st.in_spec:
+            raise Unsupported("takewhile in a specification")
+        if isinstance(tw.src, EmptyList):
+            return k(EmptyList("list"), st)
+        if not self.is_listlike(tw.src):
+            raise Unsupported("takewhile over %r" % (tw.src,))
+        lv = self.get_list(st, tw.src)
+        st.frame.locals["_res"] = self.new_cell(st, self.empty_list(lv.ety))
+        st.frame.locals["_twf"] = tw.pred
+        st.frame.locals["_twl"] = tw.src
+
+        def nm(n):
+            return ast.Name(id=n, ctx=ast.Load())
+        test = ast.UnaryOp(op=ast.Not(), operand=ast.Call(func=nm("_twf"), args=[nm("_tw")], keywords=[]))
+        body = [ast.If(test=test, body=[ast.Break()], orelse=[]),
+                ast.Expr(value=ast.Call(func=ast.Attribute(value=nm("_res"), attr="append", ctx=ast.Load()), args=[nm("_tw")], keywords=[]))]
+        loop = ast.For(target=ast.Name(id="_tw", ctx=ast.Store()), iter=nm("_twl"), body=body, orelse=[])
+        ast.fix_missing_locations(loop)
+        # label: one takewhile per function is supported
+        if "_tw_done" in st.frame.locals:
+            raise Unsupported("second takewhile in one function")
+        st.frame.locals["_tw_done"] = PyConst(True)
+        loop._label_override = "takewhile#1"
+        outs = self.exec_loop(loop, st, kind="takewhile", for_ctx=lv)
+        res = []
+        for o, s2 in outs:
+            for n in ("_twf", "_twl", "_tw"):
+                s2.frame.locals.pop(n, None)
+            if o.kind == "N":
+                v = s2.frame.locals.pop("_res")
+                res.extend(k(v, s2))
+            else:
+                s2.frame.locals.pop("_res", None)
                 res.append((o, s2))
         return res
 
